@@ -79,6 +79,10 @@ sub vcl_recv {
 	{"hand/multibyte", "sub vcl_recv {\n  set req.http.X = \"héllo ✓\"; log \"日本\";\n}\n"},
 	{"hand/empty", ""},
 	{"hand/snippet", "set req.http.X = \"a\";\nif (req.http.Y) { esi; }\nlog \"x\";\n"},
+	{"hand/switch-forms", "sub vcl_recv { switch (req.url) { case \"a\": } }\nsub vcl_hit { switch (req.url) { default: } }\nsub vcl_miss { switch (req.url) { case \"a\": break; case \"b\": } }\nsub vcl_pass { switch (req.url) { } }\nsub vcl_fetch { switch (req.url) { case \"a\": fallthrough; } }\nsub vcl_log { switch { } }"},
+	{"hand/empty-bodies", "sub a {}\nacl b {}\ntable c {}\nbackend d {}\ndirector e random {}\nsub f { if (x) {} else {} }\nsub g { {} }"},
+	{"hand/half-statements", "sub vcl_recv { set ; unset ; add ; call ; declare ; declare local ; error ; log ; return ( ; return () ; synthetic ; goto ; if ; if ( ; if () {} ; switch ; include ; import ; }"},
+	{"hand/pragma-in-block", "sub vcl_recv { pragma optional_param geoip_opt_in true"},
 	{"hand/deep", "sub vcl_recv { if (a) { if (b) { if (c) { if (d) { if (e) { esi; } } } } } }"},
 }
 
